@@ -5,6 +5,9 @@ import FeatModel.Lemmas.C14Names
 import FeatModel.Lemmas.C14Tensor
 import FeatModel.Lemmas.C14Rat
 import FeatModel.Lemmas.C14Subdiv
+import FeatModel.Lemmas.C14TensorQ
+import FeatModel.Lemmas.C14Refine1D
+import Mathlib.Tactic.IntervalCases
 /-!
 # C14 — every named cubature rule is exact up to its nominal polynomial degree; unknown names are refused
 
@@ -275,12 +278,127 @@ theorem C14.refine_keeps_weight_sum (s : Shape) (t : DyTable) (k : Nat) :
     · simp only [DyTable.refine, DyTable.refine1, ih2]
       rw [Nat.mul_succ]; omega
 
-/-- what is NOT proved: the refinement theorem beyond `refineDegreeBound` (squares: degrees 17..39, cubes: 9..39;
-    covered by the `exactq` correspondence stream and the oracle only) -/
+/-- Refinement keeps EVERY degree on the one-dimensional shapes — no degree bound, no finite check: for every rule
+    on `[0,1]` (Simplex<1>) or `[-1,1]` (Hypercube<1>), every `d` and every number `k` of refinements, exactness up
+    to degree `d` survives `refine*k`.  (The subdivision identity of the two interval refineries is proved for all
+    monomials from the antiderivative identity `Σ_i C(n,i) b^i y^(n-i+1)/(n-i+1) = ((b+y)^(n+1) − b^(n+1))/(n+1)`.) -/
+theorem C14.refine_keeps_degree_interval (s : Shape) (hs : s = .s1 ∨ s = .h1) (t : DyTable) (d k : Nat)
+    (ht : t.wf 1 = true)
+    (H : ∀ e : List Nat, e.length = 1 → esum e ≤ d → t.momentQ e = refIntQ s.simplex e) :
+    ∀ e : List Nat, e.length = 1 → esum e ≤ d →
+      (t.refine (Gen.refMapsOf s) k).momentQ e = refIntQ s.simplex e := by
+  rcases hs with rfl | rfl
+  · exact refine_exact_1d true Gen.refMapsS1 (by decide) shape_1d_s1 subdiv_s1 t ht d H k
+  · exact refine_exact_1d false Gen.refMapsH1 (by decide) shape_1d_h1 subdiv_h1 t ht d H k
+
+/-- what is NOT proved (the gap): the refinement theorem for degrees beyond `refineDegreeBound` on the shapes of
+    dimension ≥ 2 — triangles d > 20, tetrahedra d > 8 (no rule of these shapes has a larger nominal degree),
+    squares d > 16, cubes d > 8 (tensor rules of larger degree exist: covered by the `exactq`/`exhaustive`
+    correspondence streams and the oracle only).  Intervals are done for all d (`C14.refine_keeps_degree_interval`). -/
 def C14.RefineKeepsDegreeUnbounded : Prop :=
   ∀ (s : Shape) (t : DyTable) (d k : Nat), t.wf s.dim = true →
     (∀ e : List Nat, e.length = s.dim → esum e ≤ d → t.momentQ e = refIntQ s.simplex e) →
     ∀ e : List Nat, e.length = s.dim → esum e ≤ d → (t.refine (Gen.refMapsOf s) k).momentQ e = refIntQ s.simplex e
+
+/-- TENSOR-PRODUCT RULES OF ANY POINT COUNT (squares and cubes, no 2-D/3-D table needed): for every generated
+    scalar rule `t` (interval `[-1,1]`, any driver, any n) with nominal degree `d`, the rule `t.tensor dim` that the
+    tensor-product factory builds integrates every monomial whose exponents are all `≤ d` — in particular every
+    monomial of total degree `≤ d`, the nominal degree of the tensor rule — with error at most
+    `(3^dim − 2^dim)·2^-40` (5·2^-40 for squares, 19·2^-40 for cubes), in exact arithmetic on the stored table. -/
+theorem C14.tensor_exact (t : DyTable) (ht : t ∈ tablesOf .h1) (dim : Nat) :
+    ∃ d, nominal t.fac t.n = some d ∧ ∀ e : List Nat, e.length = dim → (∀ k ∈ e, k ≤ d) →
+      |(t.tensor dim).momentQ e - refIntQ false e| ≤ (3 ^ dim - 2 ^ dim) * tolQ := by
+  obtain ⟨d, hd, hx⟩ := C14.tables_exact .h1 t ht
+  refine ⟨d, hd, fun e he hk => ?_⟩
+  have hq := (exactTo_iff t false 1 d).1 hx
+  exact tensor_exactQ t (C14.tables_wellformed .h1 t ht).1 d tolQ (by unfold tolQ; positivity)
+    (by unfold tolQ tolBits; norm_num) hq dim e he hk
+
+/-- a named rule of a shape: its table exists and meets the nominal degree (`2^-40`) -/
+theorem C14.driver_degree (s : Shape) (fac : Str) (n d : Nat) (hn : nominal fac n = some d)
+    (hp : (findTable (tablesOf s) fac n).isSome = true) :
+    ∃ t, findTable (tablesOf s) fac n = some t ∧ t ∈ tablesOf s ∧ t.ExactQ s.simplex s.dim d tolQ := by
+  cases hf : findTable (tablesOf s) fac n with
+  | none => simp [hf] at hp
+  | some t =>
+    have hmem : t ∈ tablesOf s := List.mem_of_find?_eq_some hf
+    have hpred := List.find?_some hf
+    simp only [Bool.and_eq_true, beq_iff_eq] at hpred
+    obtain ⟨d', hd', hx⟩ := C14.tables_exact s t hmem
+    rw [hpred.1, hpred.2, hn] at hd'
+    cases hd'
+    exact ⟨t, rfl, hmem, (exactTo_iff t s.simplex s.dim d).1 hx⟩
+
+/-- GAUSS–LEGENDRE n → 2n−1 for every n the driver supports (1..20), on the interval `[-1,1]` (Hypercube<1>) and on
+    `[0,1]` (Simplex<1>): `|Σ w_i x_i^k − ∫ x^k| ≤ 2^-40` for all `k ≤ 2n−1` (stored doubles, uniform tolerance). -/
+theorem C14.gauss_legendre_degree (s : Shape) (hs : s = .h1 ∨ s = .s1) (n : Nat) (h1 : 1 ≤ n) (h2 : n ≤ 20) :
+    ∃ t, findTable (tablesOf s) "gauss-legendre".toList n = some t ∧ t ∈ tablesOf s ∧
+      t.ExactQ s.simplex 1 (2 * n - 1) tolQ := by
+  have hn : nominal "gauss-legendre".toList n = some (2 * n - 1) := by unfold nominal; rw [if_pos rfl]
+  have hp : (findTable (tablesOf s) "gauss-legendre".toList n).isSome = true := by
+    rcases hs with rfl | rfl <;> interval_cases n <;> decide +kernel
+  obtain ⟨t, a, b, c⟩ := C14.driver_degree s _ n _ hn hp
+  refine ⟨t, a, b, ?_⟩
+  rcases hs with rfl | rfl <;> exact c
+
+/-- ... hence Gauss–Legendre n → 2n−1 (in each variable) on squares and cubes for EVERY n = 1..20, including the
+    rules with up to 8000 points that are never tabulated -/
+theorem C14.gauss_legendre_tensor_degree (n dim : Nat) (h1 : 1 ≤ n) (h2 : n ≤ 20) :
+    ∃ t, findTable (tablesOf .h1) "gauss-legendre".toList n = some t ∧
+      ∀ e : List Nat, e.length = dim → (∀ k ∈ e, k ≤ 2 * n - 1) →
+        |(t.tensor dim).momentQ e - refIntQ false e| ≤ (3 ^ dim - 2 ^ dim) * tolQ := by
+  obtain ⟨t, a, b, c⟩ := C14.gauss_legendre_degree .h1 (Or.inl rfl) n h1 h2
+  refine ⟨t, a, fun e he hk => ?_⟩
+  exact tensor_exactQ t (C14.tables_wellformed .h1 t b).1 _ tolQ (by unfold tolQ; positivity)
+    (by unfold tolQ tolBits; norm_num) c dim e he hk
+
+/-- the other scalar drivers with their documented degrees, every admissible n, on `[-1,1]` and `[0,1]`:
+    Gauss–Lobatto n → 2n−3 (n = 3..6); Newton–Cotes closed (2..7), open (1..7) and Maclaurin (1..5): n → n−1+(n odd);
+    trapezoidal and barycentre/midpoint → 1 -/
+theorem C14.scalar_driver_degrees (s : Shape) (hs : s = .h1 ∨ s = .s1) :
+    (∀ n, 3 ≤ n → n ≤ 6 → ∃ t, findTable (tablesOf s) "gauss-lobatto".toList n = some t ∧
+        t.ExactQ s.simplex 1 (2 * n - 3) tolQ) ∧
+    (∀ n, 2 ≤ n → n ≤ 7 → ∃ t, findTable (tablesOf s) "newton-cotes-closed".toList n = some t ∧
+        t.ExactQ s.simplex 1 (n - 1 + n % 2) tolQ) ∧
+    (∀ n, 1 ≤ n → n ≤ 7 → ∃ t, findTable (tablesOf s) "newton-cotes-open".toList n = some t ∧
+        t.ExactQ s.simplex 1 (n - 1 + n % 2) tolQ) ∧
+    (∀ n, 1 ≤ n → n ≤ 5 → ∃ t, findTable (tablesOf s) "maclaurin".toList n = some t ∧
+        t.ExactQ s.simplex 1 (n - 1 + n % 2) tolQ) ∧
+    (∃ t, findTable (tablesOf s) "trapezoidal".toList 0 = some t ∧ t.ExactQ s.simplex 1 1 tolQ) ∧
+    (∃ t, findTable (tablesOf s) "barycentre".toList 0 = some t ∧ t.ExactQ s.simplex 1 1 tolQ) := by
+  have hdim : s.dim = 1 := by rcases hs with rfl | rfl <;> rfl
+  refine ⟨?_, ?_, ?_, ?_, ?_, ?_⟩
+  · intro n h1 h2
+    have hp : (findTable (tablesOf s) "gauss-lobatto".toList n).isSome = true := by
+      rcases hs with rfl | rfl <;> interval_cases n <;> decide +kernel
+    obtain ⟨t, a, _, c⟩ := C14.driver_degree s _ n (2 * n - 3) (by unfold nominal; rw [if_neg (by decide), if_pos rfl]) hp
+    exact ⟨t, a, hdim ▸ c⟩
+  · intro n h1 h2
+    have hp : (findTable (tablesOf s) "newton-cotes-closed".toList n).isSome = true := by
+      rcases hs with rfl | rfl <;> interval_cases n <;> decide +kernel
+    obtain ⟨t, a, _, c⟩ := C14.driver_degree s _ n (n - 1 + n % 2)
+      (by unfold nominal; rw [if_neg (by decide), if_neg (by decide), if_pos (by decide)]) hp
+    exact ⟨t, a, hdim ▸ c⟩
+  · intro n h1 h2
+    have hp : (findTable (tablesOf s) "newton-cotes-open".toList n).isSome = true := by
+      rcases hs with rfl | rfl <;> interval_cases n <;> decide +kernel
+    obtain ⟨t, a, _, c⟩ := C14.driver_degree s _ n (n - 1 + n % 2)
+      (by unfold nominal; rw [if_neg (by decide), if_neg (by decide), if_pos (by decide)]) hp
+    exact ⟨t, a, hdim ▸ c⟩
+  · intro n h1 h2
+    have hp : (findTable (tablesOf s) "maclaurin".toList n).isSome = true := by
+      rcases hs with rfl | rfl <;> interval_cases n <;> decide +kernel
+    obtain ⟨t, a, _, c⟩ := C14.driver_degree s _ n (n - 1 + n % 2)
+      (by unfold nominal; rw [if_neg (by decide), if_neg (by decide), if_pos (by decide)]) hp
+    exact ⟨t, a, hdim ▸ c⟩
+  · have hp : (findTable (tablesOf s) "trapezoidal".toList 0).isSome = true := by
+      rcases hs with rfl | rfl <;> decide +kernel
+    obtain ⟨t, a, _, c⟩ := C14.driver_degree s _ 0 1 (by decide) hp
+    exact ⟨t, a, hdim ▸ c⟩
+  · have hp : (findTable (tablesOf s) "barycentre".toList 0).isSome = true := by
+      rcases hs with rfl | rfl <;> decide +kernel
+    obtain ⟨t, a, _, c⟩ := C14.driver_degree s _ 0 1 (by decide) hp
+    exact ⟨t, a, hdim ▸ c⟩
 
 /-- hypotheses are satisfiable by non-trivial values: the 79-point rule `dunavant:20` is a generated table -/
 example : ∃ t ∈ tablesOf .s2, t.fac = "dunavant".toList ∧ t.n = 20 ∧ t.w.length = 79 := by decide +kernel
